@@ -26,7 +26,8 @@ package ice
 //@   props C03
 //@   requires C03 only-valid-pairs: pair == nil || a.userBindingRequestHandler != nil || pair.state == pairSucceeded
 //@   site store nominated#1 assert C03 marks-nominated: value == true && object == pair
-//@   ensures C03 stored: a.selectedPair == old(a.selectedPair) || true
+//@   ensures C03 C04 stored: a.getSelectedPair() == pair
+//@   ensures C04 C06 unselect-touches-only-selection: pair == nil ==> unchangedExcept("H_ice.Agent.selectedPair*")
 
 //@ func (*controlledSelector).shouldAcceptNomination
 //@   props C20
